@@ -1,7 +1,7 @@
 """Child process of the C17 check: build problems in a fresh interpreter under a given
 PYTHONHASHSEED and prior state of numpy's global generator; print component digests as JSON.
 usage: c17_child.py <prior: fresh|seeded|advanced> <task> [<task> ...]
-tasks: small | g1:<horizon> | rand:<ns>:<nd>:<horizon>:<seed>"""
+tasks: small | g1:<horizon> | rand:<ns>:<nd>:<horizon>:<seed> | sym:<k>"""
 import json
 import logging
 import os
@@ -93,18 +93,36 @@ def run_task(task):
         out.update(three([("arc", m.get_arc_based), ("path", m.get_path_based),
                           ("seq", lambda: m.get_sequence_based(strict=False))]))
         return out
+    if parts[0] == "sym":
+        # MIRPs with indistinguishable ports: the greedy construction meets exact ties, so whatever random draw
+        # breaks them must come from the re-seeded stream, not from the caller's generator state
+        from vrpqubo.applications.mirp import MIRP
+        k = int(parts[1])
+        m = MIRP(cargo_size=1, time_horizon=6 + k)
+        for i in range(2 + k):
+            m.add_nodes(f"S{i}", 0.5, 0.25, 1.5)
+        m.add_nodes("D1", 1.25, -0.25, 1.5)
+        m.add_nodes("D2", 1.5, -0.25, 1.5)
+        m.add_travel_arcs(lambda p, q: 1, vessel_speed=1, cost_per_unit_distance=16,
+                          supply_port_fees={f"S{i}": 0 for i in range(2 + k)}, demand_port_fees={"D1": 0, "D2": 0})
+        m.add_exit_arcs()
+        m.add_entry_arcs(time_limit=5)
+        return three([("arc", m.get_arc_based), ("path", m.get_path_based),
+                      ("seq", lambda: m.get_sequence_based(strict=False))])
     raise SystemExit("unknown task " + task)
 
 
 def main():
     prior = sys.argv[1]
-    if prior == "seeded":
-        np.random.seed(123)
-    elif prior == "advanced":
-        np.random.seed(7)
-        np.random.random(1000)
     res = {}
-    for t in sys.argv[2:]:
+    for k, t in enumerate(sys.argv[2:]):
+        # the prior state is re-established before EVERY task (an earlier task's own re-seeding would otherwise
+        # make the later tasks start from the same state in every environment)
+        if prior == "seeded":
+            np.random.seed(123 + k)
+        elif prior == "advanced":
+            np.random.seed(7 + k)
+            np.random.random(1000 + 13 * k)
         res[t] = run_task(t)
     print("C17CHILD " + json.dumps(res, sort_keys=True))
 
